@@ -460,6 +460,7 @@ public:
     long seg = -1;        // index of the current segment
     // last exit (for the hand-over invariant)
     int out_dir = -1, out_sub = -1;
+    long hops = 0;
     double out_pos[3] = {0, 0, 0};
   };
   std::vector< Packet > packets; // index = id - id_base
@@ -758,6 +759,10 @@ public:
       }
       pk->out_dir = (int)x;
       pk->out_sub = task_of_fiber().subgrid;
+      if (++pk->hops > 20000000)
+        fail("packet-never-ends",
+             sfmt("packet %llu was handed over more than 2e7 times",
+                  (unsigned long long)p.get_verif_id()));
       for (int k = 0; k < 3; ++k)
         pk->out_pos[k] = p.get_position()[k];
       if (x >= 0 && x < TRAVELDIRECTION_NUMBER)
@@ -983,9 +988,19 @@ public:
       fail("leftover", sfmt("iteration %d ended with %zu photon buffers still "
                             "in use",
                             iloop, buffers->get_number_of_active_buffers()));
-    else if (!lay.cfg.task_plot && tasks->get_number_of_active_elements() != 0)
-      fail("leftover", sfmt("iteration %d ended with %zu tasks still in use",
-                            iloop, tasks->get_number_of_active_elements()));
+    else if (!lay.cfg.task_plot && tasks->get_number_of_active_elements() != 0) {
+      Task *act[8];
+      const size_t na = tasks->get_active_elements(8, act);
+      std::string types;
+      for (size_t k = 0; k < na; ++k)
+        types += sfmt(" type %d (subgrid/block %zu)", (int)act[k]->get_type(),
+                      act[k]->get_subgrid());
+      fail("leftover",
+           sfmt("iteration %d ended with %zu tasks still in use:%s; shared "
+                "queue holds %zu entries",
+                iloop, tasks->get_number_of_active_elements(), types.c_str(),
+                shared->size()));
+    }
     else if (shared->size() != 0)
       fail("leftover", sfmt("iteration %d ended with %zu entries in the shared "
                             "queue",
